@@ -10,13 +10,14 @@ one() {
   rm -rf $wt $out; git -C /repo worktree add -q --detach $wt HEAD 2>/dev/null || { echo "$n: worktree failed"; return; }
   if ! git -C $wt apply /verif/seeded/$n/patch.diff 2>/dev/null; then echo "$n: PATCH DOES NOT APPLY"; git -C /repo worktree remove --force $wt; return; fi
   hits=""
-  for q in $PROPS; do
+  PL="$PROPS"; [ -n "${TARGETED:-}" ] && PL=$(python3 /verif/tools/props_for.py /verif/seeded/$n/patch.diff ${n%%-*})
+  for q in $PL; do
     o=$(VERIF_OUT=$out python3-vt -m hv.check $q --tier $TIER --repo $wt 2>&1); rc=$?
     if [ $rc = 1 ]; then hits="$hits $q($(echo "$o" | grep -c '^VIOLATION'))"; elif [ $rc = 2 ]; then hits="$hits $q(ERR)"; fi
   done
   git -C /repo worktree remove --force $wt; rm -rf $out
   echo "$n: ${hits:- MISSED}"
 }
-RUNID=$$; export -f one; export PROPS TIER RUNID
+RUNID=$$; export -f one; export PROPS TIER RUNID TARGETED
 ls -d ${@:-seeded/*/} | xargs -P 14 -I{} bash -c 'one {}' | sort
 git -C /repo worktree prune
